@@ -475,6 +475,365 @@ theorem C12_transitional_requests_inert {tbl : List Route} (hg : allGuarded tbl 
   · rw [e]
   · rcases hc with ⟨_, hst⟩ | ⟨_, hst⟩ <;> rcases h with h | h <;> rw [h] at hst <;> cases hst
 
+/-! ### timing -/
+
+/-- nothing but the countdowns differs -/
+def Frozen (n n' : Node) : Prop :=
+  n'.st = n.st ∧ n'.hist = n.hist ∧ n'.nics = n.nics ∧ n'.svcs = n.svcs ∧ n'.apps = n.apps ∧
+  n'.resetting = n.resetting ∧ n'.upDur = n.upDur ∧ n'.downDur = n.downDur
+
+theorem Frozen.refl (n : Node) : Frozen n n := ⟨rfl, rfl, rfl, rfl, rfl, rfl, rfl, rfl⟩
+
+theorem Frozen.trans {a b c : Node} (h1 : Frozen a b) (h2 : Frozen b c) : Frozen a c := by
+  obtain ⟨a1, a2, a3, a4, a5, a6, a7, a8⟩ := h1
+  obtain ⟨b1, b2, b3, b4, b5, b6, b7, b8⟩ := h2
+  exact ⟨b1.trans a1, b2.trans a2, b3.trans a3, b4.trans a4, b5.trans a5, b6.trans a6, b7.trans a7, b8.trans a8⟩
+
+theorem tickSoftware_notOn (n : Node) (h : n.st ≠ .on) : tickSoftware n = n := by
+  unfold tickSoftware; rw [if_neg h]
+
+/-- a tick of a BOOTING node whose countdown has not run out only decrements the countdowns -/
+theorem tick_booting_pos (n : Node) (hst : n.st = .booting) (hc : 0 < n.upCd) :
+    Frozen n (tick n) ∧ (tick n).upCd = n.upCd - 1 := by
+  have h1 : tickUp n = { n with upCd := n.upCd - 1 } := by
+    unfold tickUp; rw [if_pos hc]
+  have h2 : Frozen n (tickDown (tickUp n)) ∧ (tickDown (tickUp n)).upCd = n.upCd - 1 := by
+    rw [h1]; unfold tickDown
+    split
+    · exact ⟨⟨rfl, rfl, rfl, rfl, rfl, rfl, rfl, rfl⟩, rfl⟩
+    · rw [if_neg (by show n.st ≠ .shuttingDown; rw [hst]; decide)]
+      exact ⟨⟨rfl, rfl, rfl, rfl, rfl, rfl, rfl, rfl⟩, rfl⟩
+  unfold tick
+  rw [tickSoftware_notOn _ (by rw [h2.1.1, hst]; decide)]
+  exact h2
+
+/-- the tick that finds a BOOTING node with countdown `<= 0` turns it ON -/
+theorem tick_booting_zero (n : Node) (hst : n.st = .booting) (hc : n.upCd ≤ 0) :
+    (tick n).st = .on ∧ (tick n).hist = .on :: n.hist := by
+  have hc' : ¬ n.upCd > 0 := by omega
+  have h1 : tickUp n = startUpActions (enableNics (setSt n .on)) := by
+    unfold tickUp; rw [if_neg hc', if_pos hst]
+  unfold tick
+  rw [h1]
+  have h2 : (startUpActions (enableNics (setSt n .on))).st = .on := rfl
+  have h3 : (tickDown (startUpActions (enableNics (setSt n .on)))).st = .on ∧
+      (tickDown (startUpActions (enableNics (setSt n .on)))).hist = .on :: n.hist := by
+    unfold tickDown
+    split
+    · exact ⟨rfl, rfl⟩
+    · rw [if_neg (by rw [h2]; decide)]; exact ⟨rfl, rfl⟩
+  unfold tickSoftware
+  split
+  · exact h3
+  · exact h3
+
+/-- a tick of a SHUTTING_DOWN node whose countdown has not run out only decrements the countdowns -/
+theorem tick_shutting_pos (n : Node) (hst : n.st = .shuttingDown) (hc : 0 < n.downCd) :
+    Frozen n (tick n) ∧ (tick n).downCd = n.downCd - 1 := by
+  have h1 : Frozen n (tickUp n) ∧ (tickUp n).downCd = n.downCd := by
+    unfold tickUp
+    split
+    · exact ⟨⟨rfl, rfl, rfl, rfl, rfl, rfl, rfl, rfl⟩, rfl⟩
+    · rw [if_neg (by rw [hst]; decide)]; exact ⟨Frozen.refl n, rfl⟩
+  have h2 : tickDown (tickUp n) = { tickUp n with downCd := (tickUp n).downCd - 1 } := by
+    unfold tickDown; rw [if_pos (by rw [h1.2]; exact hc)]
+  obtain ⟨⟨a1, a2, a3, a4, a5, a6, a7, a8⟩, a9⟩ := h1
+  unfold tick
+  rw [h2, tickSoftware_notOn _ (by show (tickUp n).st ≠ .on; rw [a1, hst]; decide)]
+  exact ⟨⟨a1, a2, a3, a4, a5, a6, a7, a8⟩, by show (tickUp n).downCd - 1 = _; rw [a9]⟩
+
+/-- where a start leads: BOOTING when the start-up takes time, ON at once otherwise -/
+def startTarget (n : Node) : PState := if n.upDur ≤ 0 then .on else .booting
+
+theorem powerOn_from_off (n : Node) (hst : n.st = .off) :
+    (powerOn n).1.st = startTarget n ∧ (powerOn n).1.hist = startTarget n :: n.hist ∧
+    (powerOn n).2 = true ∧ (0 < n.upDur → (powerOn n).1.upCd = n.upDur) ∧
+    (powerOn n).1.upDur = n.upDur ∧ (powerOn n).1.downDur = n.downDur ∧ (powerOn n).1.resetting = n.resetting := by
+  by_cases hu : n.upDur ≤ 0
+  · have ht : startTarget n = .on := by unfold startTarget; rw [if_pos hu]
+    rw [ht]; unfold powerOn; rw [if_pos hu]
+    exact ⟨rfl, rfl, rfl, fun h => absurd hu (by omega), rfl, rfl, rfl⟩
+  · have ht : startTarget n = .booting := by unfold startTarget; rw [if_neg hu]
+    rw [ht]; unfold powerOn; rw [if_neg hu, if_pos hst]
+    exact ⟨rfl, rfl, rfl, fun _ => rfl, rfl, rfl, rfl⟩
+
+/-- the tick that finds a SHUTTING_DOWN node with countdown `<= 0` turns it OFF; if a reset is pending it is
+started again in the same tick and the flag is cleared -/
+theorem tick_shutting_zero (n : Node) (hst : n.st = .shuttingDown) (hc : n.downCd ≤ 0) :
+    (n.resetting = false → (tick n).st = .off ∧ (tick n).hist = .off :: n.hist) ∧
+    (n.resetting = true → (tick n).st = startTarget n ∧ (tick n).hist = startTarget n :: .off :: n.hist ∧
+        (tick n).resetting = false ∧ (0 < n.upDur → (tick n).upCd = n.upDur)) := by
+  have hc' : ¬ n.downCd > 0 := by omega
+  have h1 : Frozen n (tickUp n) ∧ (tickUp n).downCd = n.downCd := by
+    unfold tickUp
+    split
+    · exact ⟨⟨rfl, rfl, rfl, rfl, rfl, rfl, rfl, rfl⟩, rfl⟩
+    · rw [if_neg (by rw [hst]; decide)]; exact ⟨Frozen.refl n, rfl⟩
+  obtain ⟨⟨a1, a2, a3, a4, a5, a6, a7, a8⟩, a9⟩ := h1
+  have hst' : (tickUp n).st = .shuttingDown := by rw [a1, hst]
+  have hc'' : ¬ (tickUp n).downCd > 0 := by rw [a9]; exact hc'
+  constructor
+  · intro hr
+    have hr' : (shutDownActions (setSt (tickUp n) .off)).resetting = false := by
+      show (tickUp n).resetting = false
+      rw [a6, hr]
+    have h2 : tickDown (tickUp n) = shutDownActions (setSt (tickUp n) .off) := by
+      unfold tickDown
+      rw [if_neg hc'', if_pos hst']
+      simp only [hr']
+      rfl
+    unfold tick
+    rw [h2]
+    unfold tickSoftware
+    have : (shutDownActions (setSt (tickUp n) .off)).st = .off := rfl
+    rw [if_neg (by rw [this]; decide)]
+    exact ⟨rfl, by show PState.off :: (tickUp n).hist = _; rw [a2]⟩
+  · intro hr
+    have hr' : (shutDownActions (setSt (tickUp n) .off)).resetting = true := by
+      show (tickUp n).resetting = true
+      rw [a6, hr]
+    have h2 : tickDown (tickUp n) =
+        (powerOn { shutDownActions (setSt (tickUp n) .off) with resetting := false }).1 := by
+      unfold tickDown
+      rw [if_neg hc'', if_pos hst']
+      simp only [hr', if_true]
+    have hp := powerOn_from_off { shutDownActions (setSt (tickUp n) .off) with resetting := false } rfl
+    have hT : startTarget { shutDownActions (setSt (tickUp n) .off) with resetting := false } = startTarget n := by
+      unfold startTarget
+      show (if (tickUp n).upDur ≤ 0 then PState.on else PState.booting) = _
+      rw [a7]
+    rw [hT] at hp
+    obtain ⟨p1, p2, _, p4, _, _, p7⟩ := hp
+    unfold tick
+    rw [h2]
+    unfold tickSoftware
+    split
+    · refine ⟨p1, ?_, p7, ?_⟩
+      · show _ = _
+        rw [p2]; show startTarget n :: PState.off :: (tickUp n).hist = _; rw [a2]
+      · intro hu; exact (p4 (by show 0 < (tickUp n).upDur; rw [a7]; exact hu)).trans a7
+    · refine ⟨p1, ?_, p7, ?_⟩
+      · rw [p2]; show startTarget n :: PState.off :: (tickUp n).hist = _; rw [a2]
+      · intro hu; exact (p4 (by show 0 < (tickUp n).upDur; rw [a7]; exact hu)).trans a7
+
+/-- while BOOTING or SHUTTING_DOWN, requests and frames change nothing at all -/
+theorem step_transitional_inert {tbl : List Route} (hg : allGuarded tbl = true) (n : Node)
+    (h : n.st = .booting ∨ n.st = .shuttingDown) (op : Op) (hop : op ≠ .tick) : (step tbl n op).1 = n := by
+  cases op with
+  | request key sub => exact C12_transitional_requests_inert hg n h key sub
+  | tick => exact absurd rfl hop
+  | frameIn i => rfl
+  | frameOut i => rfl
+
+/-- **boot_timing (held).** A BOOTING node with countdown `c` is still BOOTING after any sequence of operations that
+contains at most `c` ticks — whatever requests and frames are interleaved — and nothing but the countdowns changed. -/
+theorem C12_boot_held {tbl : List Route} (hg : allGuarded tbl = true) (n : Node) (hst : n.st = .booting)
+    (ops : List Op) (hle : (ticksIn ops : Int) ≤ n.upCd) :
+    Frozen n (run tbl n ops) ∧ (run tbl n ops).upCd = n.upCd - ticksIn ops := by
+  induction ops generalizing n with
+  | nil => exact ⟨Frozen.refl n, by simp [run, ticksIn]⟩
+  | cons op ops ih =>
+    by_cases hop : op = .tick
+    · subst hop
+      have hle' : (ticksIn ops : Int) + 1 ≤ n.upCd := by simpa [ticksIn] using hle
+      obtain ⟨hf, hcd⟩ := tick_booting_pos n hst (by omega)
+      have := ih (tick n) (by rw [hf.1, hst]) (by rw [hcd]; omega)
+      refine ⟨Frozen.trans hf this.1, ?_⟩
+      show (run tbl (tick n) ops).upCd = _
+      rw [this.2, hcd]; simp [ticksIn]; omega
+    · have hin := step_transitional_inert hg n (Or.inl hst) op hop
+      have ht : ticksIn (op :: ops) = ticksIn ops := by
+        cases op with
+        | tick => exact absurd rfl hop
+        | request _ _ => rfl
+        | frameIn _ => rfl
+        | frameOut _ => rfl
+      show Frozen n (run tbl (step tbl n op).1 ops) ∧ (run tbl (step tbl n op).1 ops).upCd = _
+      rw [hin, ht]
+      exact ih n hst (by rw [ht] at hle; exact hle)
+
+/-- **shutdown_timing (held).** Same for SHUTTING_DOWN. -/
+theorem C12_shutdown_held {tbl : List Route} (hg : allGuarded tbl = true) (n : Node) (hst : n.st = .shuttingDown)
+    (ops : List Op) (hle : (ticksIn ops : Int) ≤ n.downCd) :
+    Frozen n (run tbl n ops) ∧ (run tbl n ops).downCd = n.downCd - ticksIn ops := by
+  induction ops generalizing n with
+  | nil => exact ⟨Frozen.refl n, by simp [run, ticksIn]⟩
+  | cons op ops ih =>
+    by_cases hop : op = .tick
+    · subst hop
+      have hle' : (ticksIn ops : Int) + 1 ≤ n.downCd := by simpa [ticksIn] using hle
+      obtain ⟨hf, hcd⟩ := tick_shutting_pos n hst (by omega)
+      have := ih (tick n) (by rw [hf.1, hst]) (by rw [hcd]; omega)
+      refine ⟨Frozen.trans hf this.1, ?_⟩
+      show (run tbl (tick n) ops).downCd = _
+      rw [this.2, hcd]; simp [ticksIn]; omega
+    · have hin := step_transitional_inert hg n (Or.inr hst) op hop
+      have ht : ticksIn (op :: ops) = ticksIn ops := by
+        cases op with
+        | tick => exact absurd rfl hop
+        | request _ _ => rfl
+        | frameIn _ => rfl
+        | frameOut _ => rfl
+      show Frozen n (run tbl (step tbl n op).1 ops) ∧ (run tbl (step tbl n op).1 ops).downCd = _
+      rw [hin, ht]
+      exact ih n hst (by rw [ht] at hle; exact hle)
+
+/-- a request whose key exists and whose validator holds runs its handler -/
+theorem request_accepted {tbl : List Route} (hg : allGuarded tbl = true) (n : Node) (key : String) (sub : Sub)
+    (hin : (tbl.find? (fun r => r.key == key)).isSome = true)
+    (hok : (key = "startup" ∧ n.st = .off) ∨ (key ≠ "startup" ∧ n.st = .on)) :
+    request tbl n key sub = handle n key sub := by
+  rcases request_cases hg n key sub with ⟨_, hf⟩ | ⟨_, _, hc⟩ | ⟨e, _⟩
+  · rw [hf] at hin; cases hin
+  · rcases hc with ⟨hk, hne⟩ | ⟨hk, hne⟩ <;> rcases hok with ⟨hk', hst⟩ | ⟨hk', hst⟩
+    · exact absurd hst hne
+    · exact absurd hk hk'
+    · exact absurd hk' hk
+    · exact absurd hst hne
+  · exact e
+
+theorem powerOff_timed (n : Node) (hst : n.st = .on) (hd : 0 < n.downDur) :
+    (powerOff n).1.st = .shuttingDown ∧ (powerOff n).1.downCd = n.downDur ∧ (powerOff n).1.hist = .shuttingDown :: n.hist ∧
+    (powerOff n).1.resetting = n.resetting ∧ (powerOff n).1.upDur = n.upDur ∧ (powerOff n).1.downDur = n.downDur ∧
+    (powerOff n).2 = true := by
+  unfold powerOff
+  rw [if_neg (by omega), if_pos hst]
+  exact ⟨rfl, rfl, rfl, rfl, rfl, rfl, rfl⟩
+
+theorem powerOff_instant (n : Node) (hd : n.downDur ≤ 0) :
+    (powerOff n).2 = true ∧
+    (n.resetting = false → (powerOff n).1.st = .off ∧ (powerOff n).1.hist = .off :: n.hist) ∧
+    (n.resetting = true → (powerOff n).1.st = startTarget n ∧ (powerOff n).1.hist = startTarget n :: .off :: n.hist ∧
+        (powerOff n).1.resetting = false ∧ (0 < n.upDur → (powerOff n).1.upCd = n.upDur) ∧
+        (powerOff n).1.upDur = n.upDur ∧ (powerOff n).1.downDur = n.downDur) := by
+  unfold powerOff
+  rw [if_pos hd]
+  dsimp only
+  refine ⟨?_, ?_, ?_⟩
+  · split <;> rfl
+  · intro hr
+    have : (setSt (shutDownActions (disableNics n)) .off).resetting = false := hr
+    simp only [this]
+    exact ⟨rfl, rfl⟩
+  · intro hr
+    have : (setSt (shutDownActions (disableNics n)) .off).resetting = true := hr
+    simp only [this, if_true]
+    have hp := powerOn_from_off { setSt (shutDownActions (disableNics n)) .off with resetting := false } rfl
+    have hT : startTarget { setSt (shutDownActions (disableNics n)) .off with resetting := false } = startTarget n := rfl
+    rw [hT] at hp
+    obtain ⟨p1, p2, _, p4, p5, p6, p7⟩ := hp
+    exact ⟨p1, p2, p7, p4, p5, p6⟩
+
+/-- **boot_timing / instant.** `startup` on an OFF node answers success. With `start_up_duration = d > 0` the node is
+BOOTING for every continuation containing at most `d` ticks (requests and frames in between change nothing), and the
+`(d+1)`-th tick — the documented `range(d + 1)` — turns it ON. With `d <= 0` it is ON at once. -/
+theorem C12_boot_timing {tbl : List Route} (hg : allGuarded tbl = true) (n : Node) (hst : n.st = .off) (sub : Sub)
+    (hin : (tbl.find? (fun r => r.key == "startup")).isSome = true) :
+    (request tbl n "startup" sub).2 = .success ∧
+    (n.upDur ≤ 0 → (request tbl n "startup" sub).1.st = .on) ∧
+    (0 < n.upDur →
+      (request tbl n "startup" sub).1.st = .booting ∧
+      (∀ ops, (ticksIn ops : Int) ≤ n.upDur → (run tbl (request tbl n "startup" sub).1 ops).st = .booting) ∧
+      (∀ ops, (ticksIn ops : Int) = n.upDur →
+        (step tbl (run tbl (request tbl n "startup" sub).1 ops) .tick).1.st = .on)) := by
+  rw [request_accepted hg n "startup" sub hin (Or.inl ⟨rfl, hst⟩), handle_startup]
+  obtain ⟨p1, _, p3, p4, _, _, _⟩ := powerOn_from_off n hst
+  refine ⟨by rw [p3]; rfl, ?_, ?_⟩
+  · intro hu; show (powerOn n).1.st = .on; rw [p1]; unfold startTarget; rw [if_pos hu]
+  · intro hu
+    have hb : (powerOn n).1.st = .booting := by rw [p1]; unfold startTarget; rw [if_neg (by omega)]
+    have hcd := p4 hu
+    refine ⟨hb, ?_, ?_⟩
+    · intro ops hle
+      have := (C12_boot_held hg (powerOn n).1 hb ops (by rw [hcd]; exact hle)).1.1
+      rw [this, hb]
+    · intro ops heq
+      obtain ⟨hf, hc⟩ := C12_boot_held hg (powerOn n).1 hb ops (by rw [hcd]; omega)
+      exact (tick_booting_zero _ (by rw [hf.1, hb]) (by rw [hc, hcd]; omega)).1
+
+/-- **shutdown_timing / instant.** `shutdown` on an ON node answers success. With `shut_down_duration = d > 0` the node
+is SHUTTING_DOWN for every continuation containing at most `d` ticks and the `(d+1)`-th tick turns it OFF
+(no reset pending). With `d <= 0` it is OFF at once. -/
+theorem C12_shutdown_timing {tbl : List Route} (hg : allGuarded tbl = true) (n : Node) (hst : n.st = .on) (sub : Sub)
+    (hr : n.resetting = false) (hin : (tbl.find? (fun r => r.key == "shutdown")).isSome = true) :
+    (request tbl n "shutdown" sub).2 = .success ∧
+    (n.downDur ≤ 0 → (request tbl n "shutdown" sub).1.st = .off) ∧
+    (0 < n.downDur →
+      (request tbl n "shutdown" sub).1.st = .shuttingDown ∧
+      (∀ ops, (ticksIn ops : Int) ≤ n.downDur → (run tbl (request tbl n "shutdown" sub).1 ops).st = .shuttingDown) ∧
+      (∀ ops, (ticksIn ops : Int) = n.downDur →
+        (step tbl (run tbl (request tbl n "shutdown" sub).1 ops) .tick).1.st = .off)) := by
+  rw [request_accepted hg n "shutdown" sub hin (Or.inr ⟨by decide, hst⟩), handle_shutdown]
+  refine ⟨?_, ?_, ?_⟩
+  · by_cases hd : n.downDur ≤ 0
+    · rw [(powerOff_instant n hd).1]; rfl
+    · rw [(powerOff_timed n hst (by omega)).2.2.2.2.2.2]; rfl
+  · intro hd; exact ((powerOff_instant n hd).2.1 hr).1
+  · intro hd
+    obtain ⟨q1, q2, _, q4, _, _, _⟩ := powerOff_timed n hst hd
+    refine ⟨q1, ?_, ?_⟩
+    · intro ops hle
+      have := (C12_shutdown_held hg (powerOff n).1 q1 ops (by rw [q2]; exact hle)).1.1
+      rw [this, q1]
+    · intro ops heq
+      obtain ⟨hf, hc⟩ := C12_shutdown_held hg (powerOff n).1 q1 ops (by rw [q2]; omega)
+      exact ((tick_shutting_zero _ (by rw [hf.1, q1]) (by rw [hc, q2]; omega)).1 (by rw [hf.2.2.2.2.2.1, q4, hr])).1
+
+/-- **reset_is_off_then_on.** `reset` on an ON node answers success and is a shutdown followed by an automatic start:
+* `shut_down_duration <= 0`: within the request the node is assigned OFF and then its start target (BOOTING, or ON when
+  `start_up_duration <= 0`), the pending-reset flag is cleared and the boot countdown is armed;
+* `shut_down_duration = d > 0`: the node is SHUTTING_DOWN with the flag set for every continuation containing at most `d`
+  ticks; the `(d+1)`-th tick assigns OFF and then the start target, clears the flag and arms the boot countdown.
+In both cases `C12_boot_held` / `tick_booting_zero` then give the boot timing. -/
+theorem C12_reset_is_off_then_on {tbl : List Route} (hg : allGuarded tbl = true) (n : Node) (hst : n.st = .on) (sub : Sub)
+    (hin : (tbl.find? (fun r => r.key == "reset")).isSome = true) :
+    (request tbl n "reset" sub).2 = .success ∧
+    (n.downDur ≤ 0 →
+      (request tbl n "reset" sub).1.st = startTarget n ∧
+      (request tbl n "reset" sub).1.hist = startTarget n :: .off :: n.hist ∧
+      (request tbl n "reset" sub).1.resetting = false ∧
+      (0 < n.upDur → (request tbl n "reset" sub).1.upCd = n.upDur)) ∧
+    (0 < n.downDur →
+      (request tbl n "reset" sub).1.st = .shuttingDown ∧ (request tbl n "reset" sub).1.resetting = true ∧
+      (∀ ops, (ticksIn ops : Int) ≤ n.downDur →
+        (run tbl (request tbl n "reset" sub).1 ops).st = .shuttingDown ∧
+        (run tbl (request tbl n "reset" sub).1 ops).resetting = true) ∧
+      (∀ ops, (ticksIn ops : Int) = n.downDur →
+        let m := (step tbl (run tbl (request tbl n "reset" sub).1 ops) .tick).1
+        m.st = startTarget n ∧ m.hist = startTarget n :: .off :: .shuttingDown :: n.hist ∧ m.resetting = false ∧
+        (0 < n.upDur → m.upCd = n.upDur))) := by
+  rw [request_accepted hg n "reset" sub hin (Or.inr ⟨by decide, hst⟩), handle_reset]
+  refine ⟨rfl, ?_, ?_⟩
+  · intro hd
+    obtain ⟨r1, r2, r3, r4, _, _⟩ := (powerOff_instant { n with resetting := true } hd).2.2 rfl
+    exact ⟨r1, r2, r3, r4⟩
+  · intro hd
+    obtain ⟨q1, q2, q3, q4, q5, _, _⟩ := powerOff_timed { n with resetting := true } hst hd
+    have hq1 : (reset n).1.st = .shuttingDown := q1
+    have hq2 : (reset n).1.downCd = n.downDur := q2
+    have hq3 : (reset n).1.hist = .shuttingDown :: n.hist := q3
+    have hq4 : (reset n).1.resetting = true := q4
+    have hq5 : (reset n).1.upDur = n.upDur := q5
+    refine ⟨hq1, hq4, ?_, ?_⟩
+    · intro ops hle
+      obtain ⟨hf, _⟩ := C12_shutdown_held hg (reset n).1 hq1 ops (by rw [hq2]; exact hle)
+      exact ⟨by rw [hf.1]; exact hq1, by rw [hf.2.2.2.2.2.1]; exact hq4⟩
+    · intro ops heq
+      obtain ⟨hf, hc⟩ := C12_shutdown_held hg (reset n).1 hq1 ops (by rw [hq2]; omega)
+      have hz := (tick_shutting_zero (run tbl (reset n).1 ops) (by rw [hf.1]; exact hq1)
+        (by rw [hc, hq2]; omega)).2 (by rw [hf.2.2.2.2.2.1]; exact hq4)
+      have hT : startTarget (run tbl (reset n).1 ops) = startTarget n := by
+        unfold startTarget; rw [hf.2.2.2.2.2.2.1, hq5]
+      rw [hT] at hz
+      obtain ⟨z1, z2, z3, z4⟩ := hz
+      refine ⟨z1, ?_, z3, ?_⟩
+      · show (tick (run tbl (reset n).1 ops)).hist = _
+        rw [z2, hf.2.1, hq3]
+      · intro hu
+        have := z4 (by rw [hf.2.2.2.2.2.2.1, hq5]; exact hu)
+        show (tick (run tbl (reset n).1 ops)).upCd = _
+        rw [this, hf.2.2.2.2.2.2.1, hq5]
+
 end Primaite.Power
 
 /-! ### tie to the regenerated tables (Gen/Power.lean is rewritten from the source on every run) -/
